@@ -837,12 +837,14 @@ package actor
 //@   modifies heap except private
 
 //@ func DefaultOpts(p)
-//@   trusted
-//@   pure
+//@   props C06 C01
+//@   modifies
+//@   ensures[C06.config.default-budget-is-non-negative] result.MaxRestarts == defaultMaxRestarts && result.MaxRestarts >= 0
+//@   ensures[C01.config.default-inbox-size-is-positive] result.InboxSize == defaultInboxSize && result.InboxSize >= 1 && result.Producer == p && len(result.Middleware) == 0
 
 //@ func newFuncReceiver(f)
-//@   trusted
-//@   pure
+//@   props C08
+//@   modifies
 //@   ensures result != nil
 
 //@ func (*process).PID()
@@ -951,3 +953,19 @@ package actor
 //@   modifies log, loglen
 //@   ghost at call sendPoisonPill#1 before: assert[C07.poisonctx.is-a-graceful-pill-for-that-pid] arg0 == e && arg1 == ctx && arg2 == true && arg3 == pid
 //@   ensures !isnil(result) && logPrefix(entry(loglen))
+
+// ---------------------------------------------------------------------------
+// C01 glue: the induction step that composes the per-function facts into
+// "the k-th delivery is the k-th accepted message". E = everything pushed so
+// far (C14: Push appends), d = number delivered so far, the ring's view is
+// E[d..e). One step of the single consumer: PopN returns the first k elements
+// of the view (C14), Invoke delivers that batch in index order (C01). Then the
+// first d+k deliveries are still exactly the first d+k pushed messages.
+//@ lemma C01.glue.batch-step
+//@   var E (Array Int Iface), Dl (Array Int Iface), Dl2 (Array Int Iface), B (Array Int Iface), d Int, e Int, k Int
+//@   hyp 0 <= d && d <= e && 0 <= k && k <= e - d
+//@   hyp forall(j, 0 <= j && j < d ==> Dl[j] == E[j])
+//@   hyp forall(j, d <= j && j < d + k ==> B[j - d] == E[j])
+//@   hyp forall(j, 0 <= j && j < d ==> Dl2[j] == Dl[j])
+//@   hyp forall(j, d <= j && j < d + k ==> Dl2[j] == B[j - d])
+//@   concl[C01.glue.batch-step] forall(j, 0 <= j && j < d + k ==> Dl2[j] == E[j])
